@@ -19,63 +19,94 @@ def engine_for(prop):
     return registry.engine(prop)
 
 
-def merge_stats(total, stats):
-    for table in ("ops", "faults", "probes"):
+def stats_dict(stats):
+    return {"ops": dict(stats.ops), "faults": dict(stats.faults), "probes": dict(stats.probes),
+            "states": sorted(stats.states), "lib_calls": stats.lib_calls, "vacuous": stats.vacuous,
+            "nonvacuous": stats.nonvacuous, "max_util": dict(stats.max_util), "extra": dict(getattr(stats, "extra", {}))}
+
+
+def merge_stats(total, st):
+    for table in ("ops", "faults", "probes", "extra"):
         d = total.setdefault(table, {})
-        for k, v in getattr(stats, table).items():
+        for k, v in st.get(table, {}).items():
             d[k] = d.get(k, 0) + v
-    total["lib_calls"] = total.get("lib_calls", 0) + stats.lib_calls
-    total["vacuous"] = total.get("vacuous", 0) + stats.vacuous
-    total["nonvacuous"] = total.get("nonvacuous", 0) + stats.nonvacuous
+    for key in ("lib_calls", "vacuous", "nonvacuous"):
+        total[key] = total.get(key, 0) + st[key]
     mu = total.setdefault("max_util", {})
-    for k, v in stats.max_util.items():
+    for k, v in st["max_util"].items():
         if v > mu.get(k, 0.0):
             mu[k] = v
-    total.setdefault("states", set()).update(stats.states)
-    for k, v in getattr(stats, "extra", {}).items():
-        e = total.setdefault("extra", {})
-        e[k] = e.get(k, 0) + v
+    total.setdefault("states", set()).update(st["states"])
+
+
+def _prepare(eng):
+    if hasattr(eng, "prepare"):
+        eng.prepare()
+
+
+def _finish(eng):
+    if hasattr(eng, "finish"):
+        eng.finish()
+
+
+def _one_run(eng, prop, tier, seed, plain):
+    """Executed in a forked child of the pristine worker."""
+    from sim import stepclock as SC
+    res = eng.run_one(prop, tier, seed, proxy=not plain)
+    return {"ops": res["ops"], "violation": res["violation"].as_dict() if res["violation"] is not None else None,
+            "digest": res["digest"], "stats": stats_dict(res["stats"]), "config": res["config"],
+            "nontrivial": bool(res["nontrivial"]), "result_digest": res.get("result_digest"),
+            "sim_time": {"back_edges": SC.CLOCK.total_jumps, "row_reads": SC.CLOCK.total_rows,
+                         "clock_span_s": eng.clock_span()},
+            "none_seeds": seams.RNG.none_seeds}
 
 
 def run_block(prop, tier, first, count, out_path, plain=False, keep_logs=False):
-    seams.install()
-    from sim import stepclock as SC
+    seams.install()           # imports dsw and installs the seams; this process itself never calls into dsw
+    from sim import isolate
     eng = engine_for(prop)
-    if hasattr(eng, "prepare"):
-        eng.prepare()
     total, digests, violations, samples = {}, [], [], []
+    sim_time = {"back_edges": 0, "row_reads": 0, "clock_span_s": 0.0}
+    none_seeds = 0
     t0 = time.time()
     for seed in range(first, first + count):
-        res = eng.run_one(prop, tier, seed, proxy=not plain)
+        res = isolate.run(_one_run, (eng, prop, tier, seed, plain), timeout=600.0,
+                          before=lambda: _prepare(eng), after=lambda: _finish(eng))
         merge_stats(total, res["stats"])
-        digests.append([seed, res["digest"][:20], bool(res["nontrivial"])])
+        digests.append([seed, res["digest"][:20], res["nontrivial"], res.get("result_digest")])
         if res["violation"] is not None and len(violations) < 40:
-            violations.append({"seed": seed, "violation": res["violation"].as_dict(), "ops": res["ops"],
+            violations.append({"seed": seed, "violation": res["violation"], "ops": res["ops"],
                                "config": res["config"]})
         if len(samples) < 2 and res["nontrivial"] and res["violation"] is None:
             samples.append({"seed": seed, "config": res["config"], "ops": res["ops"][:12],
                             "ops_total": len(res["ops"]), "digest": res["digest"][:20]})
+        for k in ("back_edges", "row_reads"):
+            sim_time[k] += res["sim_time"][k]
+        sim_time["clock_span_s"] = max(sim_time["clock_span_s"], res["sim_time"]["clock_span_s"])
+        none_seeds += res["none_seeds"]
     total["states"] = sorted(total.get("states", set()))
     out = {"prop": prop, "tier": tier, "first": first, "count": count, "stats": total, "digests": digests,
-           "violations": violations, "samples": samples, "wall_s": time.time() - t0,
-           "sim_time": {"back_edges": SC.CLOCK.total_jumps, "row_reads": SC.CLOCK.total_rows,
-                        "clock_span_s": eng.clock_span()},
+           "violations": violations, "samples": samples, "wall_s": time.time() - t0, "sim_time": sim_time,
            "hashseed": os.environ.get("PYTHONHASHSEED"), "tree": seams.repo_tree_digest(),
-           "rng_none_seeds": seams.RNG.none_seeds}
+           "rng_none_seeds": none_seeds}
     with open(out_path, "w") as f:
         f.write(cjson(out))
 
 
+def _replay_child(eng, trace):
+    violation, index, digest = eng.replay(trace["property"], trace)
+    return {"violation": violation.as_dict() if violation is not None else None, "index": index, "digest": digest}
+
+
 def do_replay(trace_path, out_path):
     seams.install()
+    from sim import isolate
     with open(trace_path) as f:
         trace = json.load(f)
     eng = engine_for(trace["property"])
-    if hasattr(eng, "prepare"):
-        eng.prepare()
-    violation, index, digest = eng.replay(trace["property"], trace)
-    out = {"violation": violation.as_dict() if violation is not None else None, "index": index, "digest": digest,
-           "tree": seams.repo_tree_digest()}
+    out = isolate.run(_replay_child, (eng, trace), timeout=900.0, before=lambda: _prepare(eng),
+                      after=lambda: _finish(eng))
+    out["tree"] = seams.repo_tree_digest()
     with open(out_path, "w") as f:
         f.write(cjson(out))
 
@@ -86,8 +117,6 @@ def do_minimise(trace_path, out_path, max_exec=400):
     with open(trace_path) as f:
         trace = json.load(f)
     eng = engine_for(trace["property"])
-    if hasattr(eng, "prepare"):
-        eng.prepare()
     small, executions = minimise.minimise(eng, trace, max_exec=max_exec)
     small["minimised"] = True
     small["original_ops"] = len(trace["ops"])
